@@ -5,10 +5,15 @@ package module
 // Machine-checked contracts for the universal constructors of Module.go (comment-only; read by /verif/engine).
 // Each argument form is stated with the same specification functions as the class-level constructor.
 
-//@ assume func CDCN
+// CDCN(): every call hands out a notation of its own (C19: a notation carries a stateful parser and must not be
+// shared behind the caller's back)
+//@ func CDCN
+//@   props C19 C20
 //@   nilok
 //@   nopanic
+//@   requires len(arguments) == 0
 //@   ensures result != nil
+//@   ensures[C19] fresh(result)
 // (reflect.ValueOf is given its contract in agent/contracts_verif.go)
 
 //@ func Association
